@@ -25,6 +25,7 @@ RULE = ("simple graphs without isolated vertices: atlas graphs with <= 6 vertice
         "overlapping cluster, 20..70 vertices, or G(n,p) with n<=40, p<=.15); m0 in 2..omega+1; the bound is set before, after, or between the edge insertions, or twice, or changed after a read-only look at the candidate list, or the object is reused after a first cover; schedules first/last/3 seeds + exhaustive tie-break trees up to 64 leaves; "
         "non-trivial = a maximal clique larger than m0 overlapping another one, or >= 1 tie-break with >= 2 candidates; distinct = SHA-1 of (graph, m0)")
 RULE += ("; rounds k-l added: " + '20% of the small graphs on unusual numeric labels: signed ints (-1 and -2 share a hash), multiples of 2**61-1 (all hash to 0), numpy float64 half-integers')
+RULE += '; round n: one graph of two cliques on 145..210 vertices sharing exactly one edge per quick run (bound at or above their order)'
 ASSUMPTIONS = ["vertices are ints; order of the returned list and of vertices inside a clique is ignored",
                "progress bound: each greedy step must cover a new edge, so more than |E| tie-break calls is a violation"]
 HEADLINE = ["pairs", "runs", "edges_covered_exactly_once", "tie_breaks", "tie_breaks_multi", "exhaustive_trees", "tree_leaves", "trees_truncated",
@@ -40,12 +41,15 @@ def gen_cases(tier, seed):
     if tier == "quick":
         for i in range(300):
             cases.append({"seed": seed * 100267 + i, "nmax": 11, "large": 1.0 if i % 4 == 0 else 0.0, "_cost": 6 if i % 4 == 0 else 1})
+        cases.append({"seed": seed * 100267 + 970000, "bigcliques": True, "_cost": 300})
     else:
         for i in range(6000):
             cases.append({"seed": seed * 100267 + i, "nmax": 16 if i % 5 == 0 else 12, "large": 1.0 if i % 10 == 3 else 0.0,
                           "_cost": 8 if i % 10 == 3 else 4 if i % 5 == 0 else 1})
         for a in atlas(6):
             cases.append({"atlas": a, "seed": seed})
+        for i in range(3):
+            cases.append({"seed": seed * 100267 + 970000 + i, "bigcliques": True, "_cost": 600})
         cases.append({"kind": "repo-tests", "seed": seed, "_cost": 100})
     return cases
 
@@ -175,6 +179,17 @@ def run_case(case):
         g = atlas_graph(case["atlas"])
         d = "atlas#%d" % case["atlas"]
         g = nx.Graph([tuple(sorted(e)) for e in g.edges()])
+    elif case.get("bigcliques"):
+        # scale in the ORDER of the cliques: two cliques on 145..210 vertices each that share exactly one edge (a score of one shared edge
+        # out of ten or twenty thousand is still a score), bound at or above their order
+        n = rng.randint(145, 210)
+        a = list(range(n))
+        b = [0, 1] + list(range(n, 2 * n - 2))
+        g = nx.Graph()
+        g.add_edges_from(combinations(a, 2))
+        g.add_edges_from(combinations(b, 2))
+        d = "two %d-cliques sharing one edge" % n
+        res.count("graphs_of_two_large_cliques_sharing_one_edge")
     else:
         d, g = random_graph(rng, nmax=case.get("nmax", 11), large=case.get("large", 0.0))
         if g.number_of_nodes() > 16:
@@ -189,6 +204,8 @@ def run_case(case):
     m0s = list(range(2, omega + 2)) if "atlas" in case else sorted({2, rng.randint(2, omega + 1), rng.choice([omega, omega + 1, max(2, omega - 1)])})
     if g.number_of_nodes() > 16:
         m0s = sorted(set(rng.sample([2, 3, 4, 5, 6], 2)) | {rng.choice([4, 5])})
+    if case.get("bigcliques"):
+        m0s = [omega + rng.choice([0, 0, 40])]
     any_nt = False
     for m0 in m0s:
         res.count("pairs")
